@@ -193,6 +193,40 @@ theorem batched_loop_eq (f : Fn) (x : Arr) (k : Int) (hx : x ≠ []) :
     · have hle : k ≤ 0 := by omega
       simp [hpos, hle, rangeDown, forLoopE, Except.bind, npVstack]
 
+/-- CANONICAL FORM of an append loop: `acc = []; for it in xs: acc.append(g(it))` is the comprehension
+`[g(it) for it in xs]` (both stop at the first element that raises) -/
+theorem forLoopE_append {α β : Type} (g : α → Except Err β) : ∀ (xs : List α) (acc : List β),
+    forLoopE acc xs (fun acc it => (g it).bind fun t => .ok (acc ++ [t])) = (mapME g xs).map fun r => acc ++ r
+  | [], acc => by simp [forLoopE, mapME, Except.map]
+  | x :: xs, acc => by
+    simp only [forLoopE, mapME]
+    cases hg : g x with
+    | error e => rfl
+    | ok t =>
+      have ih := forLoopE_append g xs (acc ++ [t])
+      simp only [Except.bind, Except.map] at ih ⊢
+      rw [ih]
+      generalize mapME g xs = m
+      cases m with
+      | error e => rfl
+      | ok r => simp
+
+theorem map_id_eta {ε α : Type} (m : Except ε α) : (m.map fun r => r) = m := by cases m <;> rfl
+
+/-- the batching of `_apply_batched` in canonical (comprehension) form, on an array that has points -/
+theorem batched_comp_eq (f : Fn) (x : Arr) (k : Int) (hx : x ≠ []) :
+    ((pyRange 0 (x.length : Int) (some k)).bind fun rng =>
+       (mapME (fun it => f (pySlice x it (it + k))) rng).bind fun r => npVstack r) = applyBatchedE f (some k) x := by
+  have h := batched_loop_eq f x k hx
+  have e : ∀ rng : List Int,
+      forLoopE ([] : List Arr) rng (fun acc it => (f (pySlice x it (it + k))).bind fun t => .ok (acc ++ [t])) =
+        mapME (fun it => f (pySlice x it (it + k))) rng := by
+    intro rng
+    rw [forLoopE_append (fun it => f (pySlice x it (it + k))) rng []]
+    simp only [List.nil_append, map_id_eta]
+  simp only [e] at h
+  exact h
+
 theorem length_cast_ne_zero (x : Arr) (hx : x ≠ []) : ((x.length : Int) == 0) = false := by
   have : 0 < x.length := List.length_pos_iff.mpr hx
   simp only [beq_eq_false_iff_ne, ne_eq]; omega
